@@ -386,10 +386,7 @@ func (m *Machine) conv(tDst, tSrc types.Type, x value) value {
 				}
 				return tF32toF64(t)
 			}
-			if !t.IsConst() {
-				m.abort("float64->float32 conversion on symbolic value")
-			}
-			return mkConst(32, f32bits(float32(f64frombits(t.C))))
+			return m.f64to32(t)
 		case isFloat(utSrc) && dst.Info()&types.IsInteger != 0:
 			if !t.IsConst() {
 				m.abort("float->int conversion on symbolic value")
